@@ -1378,6 +1378,15 @@ def canonical_file(rng, zero_prob=0.0):
         c.ref.end = c.ref.start + c.ref_extent()
         c.qry.end = c.qry.start + c.qry_extent()
     ch.fix_sizes(rng, chains)
+    if rng.random() < 0.35:
+        # chain ids carry no meaning for this library: repeated ids (all equal, or the first one's again) must not
+        # exempt a chain from validation
+        k = rng.choice([0, 1, chains[0].cid])
+        for c in (chains if rng.random() < 0.5 else chains[1:]):
+            c.cid = k
+    if rng.random() < 0.1:
+        for c in chains:
+            c.score = chains[0].score
     return [ch.chain_to_dict(c) for c in chains]
 
 
